@@ -99,6 +99,7 @@ type Exec struct {
 	hashSeq        int
 	hashMemo       map[string]string
 	encMemo        map[string]Value
+	hashApps       []hashApp
 }
 
 func (e *Exec) callerIsInit() bool {
@@ -144,6 +145,7 @@ func (e *Exec) runPath(fn *ssa.Function, prefix []bool) {
 	e.hashSeq = 0
 	e.hashMemo = map[string]string{}
 	e.encMemo = map[string]Value{}
+	e.hashApps = nil
 	e.nondet = 0
 	e.sol.Push()
 	defer e.sol.Pop()
@@ -1775,6 +1777,7 @@ func (e *Exec) hashTerm(name string, in []Term, n int) []Value {
 		}
 		out := make([]Value, n)
 		val := new(big.Int).SetBytes(sum[:n])
+		e.noteHashApp(name, in, BV(8*n, val))
 		for i := 0; i < n; i++ {
 			out[i] = VInt{BVu(8, uint64(sum[i]))}
 		}
@@ -1808,12 +1811,45 @@ func (e *Exec) hashTerm(name string, in []Term, n int) []Value {
 		e.sol.DeclareFun(f, fmt.Sprintf("((_ BitVec %d)) (_ BitVec %d)", w, 8*n))
 		e.sol.Assert(Eq(Term{S: hv, Sort: 8 * n}, app(8*n, f, arg)))
 	}
+	if !seen {
+		e.noteHashApp(name, in, Term{S: hv, Sort: 8 * n})
+	}
 	out := make([]Value, n)
 	for i := 0; i < n; i++ {
 		hi := 8*(n-i) - 1
 		out[i] = VInt{app(8, fmt.Sprintf("(_ extract %d %d)", hi, hi-7), Term{S: hv, Sort: 8 * n})}
 	}
 	return out
+}
+
+type hashApp struct {
+	name string
+	in   []Term
+	out  Term
+}
+
+// noteHashApp records an application of an idealised hash and asserts collision freedom
+// against every earlier application of the same hash on this path: different inputs give
+// different digests.
+func (e *Exec) noteHashApp(name string, in []Term, out Term) {
+	for _, p := range e.hashApps {
+		if p.name != name || p.out.Sort != out.Sort {
+			continue
+		}
+		if len(p.in) != len(in) {
+			e.sol.Assert(Not(Eq(p.out, out)))
+			continue
+		}
+		same := BoolC(true)
+		for i := range in {
+			same = And(same, Eq(p.in[i], in[i]))
+		}
+		if same.Const && same.B {
+			continue
+		}
+		e.sol.Assert(Or(same, Not(Eq(p.out, out))))
+	}
+	e.hashApps = append(e.hashApps, hashApp{name, in, out})
 }
 
 func (e *Exec) predTerm(name string, in []Term) Term {
